@@ -27,6 +27,7 @@ func checkC05(p *Prog, r *Report) {
 	c12Tables(p, r, "C05.R5a")
 	c12Leap(p, r, "C05.R5b")
 	c12LeapThreshold(p, r)
+	c12InverseDayOfYear(p, r)
 }
 
 // outputRoles maps the OutputConfig variables of the run closure to the
